@@ -13,6 +13,8 @@ for d in sorted(os.listdir(os.path.join(V, "seeded")), key=lambda x: (x.split("-
         v.append(f"{p}: {r.get('verdict')}" + (f" ({r.get('replay_kind')})" if r.get("replay_kind") else "") + (" no-failing-input-found" if r.get("no_failing_input_found") else ""))
     what = (m.get("summary") or "")[:150].replace("|", "/").replace("\n", " ")
     need = (m.get("needs_to_manifest") or "")[:110].replace("|", "/").replace("\n", " ")
+    if m.get("retired"):
+        v = ["retired — " + m["retired"][:160]]
     rows.append(f"| {d} | {what}… | {need}… | {'; '.join(v) or 'not run'} |")
 print("| id | change | needs | verdict of the property's quick check |")
 print("|---|---|---|---|")
